@@ -20,3 +20,10 @@ Theorem C08_site_nochange_means_unchanged_partial : forall d k t r a tg t' w b,
   wft (GDist d) t -> edit (GDist d) k t r a tg = Ok (t', w, b) -> site_retdiff_changed r = false -> t_retval t' = t_retval t.
 Proof. exact site_nochange_means_unchanged. Qed.
 Print Assumptions C08_site_nochange_means_unchanged_partial.
+
+(* ---- non-vacuity: concrete non-trivial programs and traces meeting the hypotheses above (proofs/GFIWitness.v) ---- *)
+From Proofs Require Import GFIWitness.
+Example C08_hypotheses_met : no_switch ex_g /\ wft ex_g ex_t /\
+  exists t' w b, edit ex_g ex_k2 ex_t (RUpdate ex_c) ex_a' ex_tg = Ok (t', w, b) /\ t' <> ex_t /\ w <> 0.
+Proof. exact (conj ex_no_switch (conj ex_wft ex_update_succeeds)). Qed.
+Print Assumptions C08_hypotheses_met.
